@@ -88,7 +88,7 @@ def check_transform(case, ctx):
     lats = [shape.obj_lattice(o) for o in objs]
     if case["container"]:
         cls = {"curve": multi.CurveContainer, "surface": multi.SurfaceContainer, "volume": multi.VolumeContainer}[case["shapes"][0]["kind"]]
-        target = cls(*objs)
+        target = build.container(cls, objs, len(case["shapes"][0]["P"]))          # filled in one of the documented ways
     else:
         target = objs[0]
     start = [a for a, b in Rs[0].domain()]
